@@ -47,7 +47,7 @@ LITS_OK = "{" + ", ".join(str(i) for i in range(1, 61) if i not in KNOWN_LITS) +
 
 
 def cfg_text(pal, nodes, docs, styles, coll, decor, ops, lits, indents, steps=1, flags="{}", breaks='{"LF"}',
-             widths="{2}", sim=False, inv=False, avoid='{"K1", "K2", "AK", "HC", "SA", "BC"}'):
+             widths="{2}", sim=False, inv=False, avoid='{"K1", "K2", "AK", "HC", "SA", "BC", "DA"}'):
     return ("CONSTANTS\n  PalUse = %s\n  MaxNodes = %d\n  MaxDocs = %d\n  ScalarStyles = %s\n  CollStyles = %s\n"
             "  MaxDecor = %d\n  Indents = %s\n  Breaks = %s\n  DocFlags = %s\n  Avoid = %s\n  Sim = %s\n"
             "  MaxSteps = %d\n  Ops = %s\n  LitUse = %s\n  IndentOpts = %s\n"
@@ -63,24 +63,27 @@ def scopes(q):
     br3 = '{"LF", "CRLF", "CR"}'
     return [
         # every operation x every target x three stressing literals, every tree <= 3 nodes
-        ("ops", cfg_text("{1}", 3, 1, '{"plain"}', both, 0, ALL_OPS, "{4, 23, 55}", "{2}", inv=True), None, 4 if q else 1),
+        ("ops", cfg_text("{1}", 3, 1, '{"plain"}', both, 0, ALL_OPS, "{4, 23, 55}", "{2}", inv=True), None, 8 if q else 1),
         # EVERY literal of the table as an assigned / updated value, and as a new key, in block and flow context
-        ("lits", cfg_text("{1}", 3, 1, '{"plain"}', both, 0, '{"assign", "update"}', LITS_OK, "{2}"), None, 15 if q else 1),
-        ("newkeys", cfg_text("{1}", 2, 1, '{"plain"}', both, 0, '{"newkey"}', LITS_OK, "{2}"), None, 90 if q else 3),
+        ("lits", cfg_text("{1}", 3, 1, '{"plain"}', both, 0, '{"assign", "update"}', LITS_OK, "{2}"), None, 30 if q else 3),
+        ("newkeys", cfg_text("{1}", 2, 1, '{"plain"}', both, 0, '{"newkey"}', LITS_OK, "{2}"), None, 180 if q else 12),
         # every indent 0..7, block scalars in the input and in the literal
-        ("indent", cfg_text("{1, 31}", 3, 1, '{"plain", "lit"}', '{"block"}', 0, '{"id", "assign"}', "{55}", i07), None, 2 if q else 1),
+        ("indent", cfg_text("{1, 31}", 3, 1, '{"plain", "lit"}', '{"block"}', 0, '{"id", "assign"}', "{55}", i07), None, 4 if q else 1),
         # anchors and aliases everywhere, writes through aliases, two-step pipes
         ("simalias", cfg_text("{1, 7, 11}", 7, 1, '{"plain", "double"}', both, 1000, ALL_OPS, "{1, 51, 58}", "{0, 2, 4}", steps=2,
-                              sim=True), "num=%d" % (500 if q else 4000), 1),
+                              sim=True), "num=%d" % (300 if q else 1500), 1),
         # everything: full palette, all literals but the known-defect ones, all indents, 2 documents
         ("sim", cfg_text(PAL_OK, 12, 2, c14.ALL_STYLES, both, 1000, ALL_OPS, LITS_OK, i07, steps=2, flags=c14.ALL_FLAGS,
-                         breaks=br3, widths="{1, 2, 4}", sim=True), "num=%d" % (1200 if q else 12000), 1),
+                         breaks=br3, widths="{1, 2, 4}", sim=True), "num=%d" % (800 if q else 5000), 1),
         # the literals of the known finding, so that it is exhibited (KNOWN-FINDING), nothing else masked
         ("simk", cfg_text("{1, 13, 25}", 4, 1, '{"plain", "single"}', both, 1000, '{"assign", "newkey", "update", "add"}',
-                          "{2, 25, 54}", "{0, 2}", sim=True), "num=%d" % (40 if q else 300), 1),
+                          "{2, 25, 54}", "{0, 2}", sim=True), "num=%d" % (40 if q else 150), 1),
         # key anchors, `get` of subtrees holding aliases, "0o17": exhibits AKEY / SUBALIAS / OCT
         ("simk2", cfg_text("{1, 8, 19, 23, 24, 40}", 4, 1, '{"plain", "single", "lit"}', both, 1000, '{"id", "get", "del", "assign"}', "{1}", "{2}",
-                           sim=True, avoid='{"K1", "K2", "HC"}'), "num=%d" % (120 if q else 800), 1),
+                           sim=True, avoid='{"K1", "K2", "HC"}'), "num=%d" % (100 if q else 400), 1),
+        # two documents declaring the same anchor names: exhibits DUPANCHOR
+        ("simk3", cfg_text("{1, 7}", 6, 2, '{"plain"}', both, 1000, '{"id", "assign"}', "{1}", "{2}", sim=True,
+                           avoid='{"K1", "K2", "AK", "HC", "SA", "BC"}'), "num=%d" % (120 if q else 400), 1),
     ]
 
 
@@ -202,6 +205,9 @@ def classify(c, events, k):
     e = events[k]
     if e.get("e") == "fail":
         m = re.search(r"unknown anchor '([^']+)'", e.get("what", ""))
+        if m and len(re.findall(r"&" + re.escape(m.group(1)) + r"(?![A-Za-z0-9])", c.get("input", ""))) >= 2 \
+                and "---" in c.get("input", ""):
+            return "DUPANCHOR"      # the same anchor name is declared in two documents of the input stream
         if m and ("&" + m.group(1)) not in re.findall(r"&[A-Za-z0-9]+", c.get("yaml_out", "")):
             # the alias survives in the output but its anchor was not printed at all
             if m.group(1) in c.get("key_anchors", []):
@@ -222,6 +228,13 @@ def classify(c, events, k):
                 t = text(tok)
                 if re.search(r"[,\[\]{}]", t) and re.search(r"[\[{,:]\s*(&\w+ )?" + re.escape(t) + r"\s*[:,\]}]", c.get("yaml_out", "")):
                     return "FLOWIND"
+        # LSP (text form): a KEY with a leading blank is printed unquoted; in block context the line then reads as a
+        # continuation of the previous entry, so the shape changes
+        for tok in jt:
+            if tok[:2] == "k:":
+                t = text(tok)
+                if len(t) > 1 and t[0] == " " and re.search(r"(^|\n|[{,\[])(- )*" + re.escape(t) + ":", c.get("yaml_out", "")):
+                    return "LSP"
         # KEYBLK (text form): a key that is exactly `|` or `>` is printed unquoted (`|: ...`); depending on what follows
         # the loader reads an empty key or a block scalar
         if any(t in ("k:7c", "k:3e") for t in jt) and re.search(r"(^|\n)\s*(- )*(&\w+ )?[|>]:", c.get("yaml_out", "")):
